@@ -524,11 +524,9 @@ impl<'m> MCTPSMBusContext<'m> {
                                         response_buf,
                                     )
                                     .unwrap();
-                            } else if payload[0] == MCTPSetEndpointIDOperations::ResetEID as u8 {
-                                unimplemented!()
-                            } else if payload[0]
-                                == MCTPSetEndpointIDOperations::SetDiscoveredFlag as u8
-                            {
+                            } else {
+                                // Reset EID (no static EID), Set Discovered Flag and
+                                // undefined operations are answered with invalid data
                                 len = self
                                     .get_response()
                                     .set_endpoint_id(
@@ -539,8 +537,6 @@ impl<'m> MCTPSMBusContext<'m> {
                                         response_buf,
                                     )
                                     .unwrap();
-                            } else {
-                                unreachable!()
                             }
                         }
                         CommandCode::GetEndpointID => {
